@@ -287,7 +287,12 @@ impl EventGen for Container {
                     register_raw_elements(&raw, context);
                     return Ok((raw.into_raw_output(), None));
                 }
-                new_el.eval_attributes(context)?;
+                if new_el.name == "text" {
+                    // (a <text> with child elements is positioned like any other)
+                    new_el.resolve_position(context)?;
+                } else {
+                    new_el.eval_attributes(context)?;
+                }
                 if context.config.add_metadata {
                     new_el
                         .attrs
